@@ -134,10 +134,20 @@ def run_case(case):
         cfg['force_format_false_discards'] = discarded
         cov['config']['force_format_false/one_resource_discarded'] = 1
 
+    # resources whose paths differ only in their extension: every resource still has a file - and numbers - of its own
+    same_stem = fmt in ('csv', 'json') and history == 'fresh' and nres >= 2 and not discarded and \
+        boot.rng(case['seed'], 'C09', 'stem', case['idx']).random() < 0.2
+    if same_stem:
+        cfg['paths_differ_only_in_extension'] = True
+        cov['config']['paths_differ_only_in_extension'] = 1
+
     def dump(out, sources=None):
         steps = sources or [lab.source(r['name'], r['fields'], r['rows']) for r in res]
         if discarded:
             steps.append(d.update_resource(discarded, path=discarded + '.tsv'))
+        if same_stem:
+            for r_, ext_ in zip(res, ['.json', '.csv', '.tsv', '.txt', '.dat']):
+                steps.append(d.update_resource(r_['name'], path='data/report' + ext_))
         steps.append(d.update_package(name='pkg'))
         steps.append(d.dump_to_path(out, **copy.deepcopy(opts)) if kind == 'path'
                      else d.dump_to_zip(out, **copy.deepcopy(opts)))
